@@ -2,6 +2,7 @@
 from __future__ import annotations
 
 import copy
+import json
 
 from .. import core, obs
 
@@ -14,7 +15,10 @@ ASSUMPTIONS = ["aliasing and caching are runtime facts the functional model cann
 EXPLANATION = ("Lean: in the model every accessor is a function of an immutable Obj, so any call sequence returns the single-call "
                "results (theorem accessors_pure); assurance for the Python object comes from model-based differential execution "
                "of random accessor histories incl. mutation of returned dicts.")
-OPS = {"2": "svcrtejkJK=#!w", "3": "svcnrtejkJK=#!w", "4": "svcnrjkJK=#!w"}
+OPS = {"2": "svcrtejkJK=#!wf", "3": "svcnrtejkJK=#!wf", "4": "svcnrjkJK=#!wf"}
+
+
+FLAGS = [(1, 0), ("yes", ""), (2, None), ([0], []), ((None,), ()), (1.5, 0.0), (-1, 0), ("0", 0), (object(), None)]
 
 
 def partner_of(ver, s, rng):
@@ -51,7 +55,7 @@ def predictions(pairs):
     can influence; {} when the driver is unavailable or the string cannot be sent"""
     pred = {}
     for ver in "234":
-        mask = "".join(c for c in OPS[ver] if c not in "=#!w")
+        mask = "".join(c for c in OPS[ver] if c not in "=#!wf")
         todo = sorted({x for v, x in pairs if v == ver and core.sendable(x)})
         if not todo:
             continue
@@ -94,6 +98,14 @@ def run_case(ver, s, ps, equal, seq, pred=None):
                 ho, hp = hash(o), hash(p)       # always taken: a cached hash must not change what == says afterwards
                 val = (ho == hp) if equal else True
                 want = True
+            elif c == "f":
+                # option flags are truth values: any truthy / falsy argument behaves like True / False
+                k = (i * 7 + len(src)) % len(FLAGS)
+                t, f_ = FLAGS[k]
+                val = (json.dumps(obj.as_json(sort=t, minimal=f_)) , json.dumps(obj.as_json(sort=f_, minimal=t)),
+                       None if ver == "2" else obj.clean_vector(output_prefix=f_), None if ver == "2" else obj.clean_vector(output_prefix=t))
+                want = (json.dumps(obj.as_json(sort=True, minimal=False)), json.dumps(obj.as_json(sort=False, minimal=True)),
+                        None if ver == "2" else obj.clean_vector(output_prefix=False), None if ver == "2" else obj.clean_vector(output_prefix=True))
             elif c == "!":
                 for d in returned:
                     for k in list(d.keys()):
@@ -147,7 +159,7 @@ def run(ctx):
     ctx.count(sum(len(c[4]) for c in cases))
     ctx.sample({"vector": cases[0][1], "partner": cases[0][2], "accessor_sequence": cases[0][4]})
     for ver in "234":
-        mask = "".join(c for c in OPS[ver] if c not in "=#!w")
+        mask = "".join(c for c in OPS[ver] if c not in "=#!wf")
         flat = [(v, s) for v, s, _, _, _ in cases if v == ver]
         if ctx.model_available and flat:
             n, dis, outs = core.compare_construct(flat, mask, ctx.tally)
